@@ -5,8 +5,8 @@
 import os, sys
 sys.path.insert(0, os.path.join(os.environ.get("AIOFTP_REPO", "/repo"), "src"))
 OBLIGATION = 'aioftp.server:Server.rnfr#SEQ::PathConditions.__call__.<locals>.wrapper/backend:exists:authorised'
-MODEL = {'cwd!34': 'Unit("!2!")', 'u_cur_home!33': 'Unit("!3!")', 'rest!28': 'A', 'u_cur_base!32': 'OPath!val!1', 'logged_done!14': False, 'virtual!37': 'Unit("!1!")', 'restart_offset!10': 0, 'real!36': 'OPath!val!0', 'block_size!0': 1, 'logged_present!13': True, 'user_done!12': True, 'current_directory_present!15': True, 'current_directory_done!16': True, 'user_present!11': True}
-SOLVER_NOTE = ''
+MODEL = {}
+SOLVER_NOTE = 'cvc5=unknown z3=sat'
 
 print("obligation", OBLIGATION, "failed; no concrete failing input could be constructed automatically")
 print("counter-model (may be spurious where string builtins are uninterpreted):")
